@@ -16,9 +16,9 @@ variable {H : Type} [DecidableEq H]
 
 /-- C13: whatever the hub holds, a CAS-Put lands the client's bytes on the hub: at the path (commit)
 or at the conflict-copy next to it (stale listing). -/
-theorem put_lands (hash : Bytes → H) (cname : List (List Char) → H → List (List Char))
+theorem put_lands (hash : Bytes → H) (cname : HTree → List (List Char) → H → List (List Char))
     (t : HTree) (k : List (List Char)) (e : Option H) (c : Bytes) :
-    hget (casPut hash cname t k e c).1 k = some c ∨ hget (casPut hash cname t k e c).1 (cname k (hash c)) = some c := by
+    hget (casPut hash cname t k e c).1 k = some c ∨ hget (casPut hash cname t k e c).1 (cname t k (hash c)) = some c := by
   unfold casPut
   split
   · left; simp [hget_hins]
@@ -26,24 +26,24 @@ theorem put_lands (hash : Bytes → H) (cname : List (List Char) → H → List 
 
 /-- C13: a Put issued on a stale listing never overwrites what another client committed — the live
 path is exactly as it was (provided the conflict-copy name is a different key). -/
-theorem stale_put_does_not_overwrite (hash : Bytes → H) (cname : List (List Char) → H → List (List Char))
+theorem stale_put_does_not_overwrite (hash : Bytes → H) (cname : HTree → List (List Char) → H → List (List Char))
     (t : HTree) (k : List (List Char)) (e : Option H) (c : Bytes)
-    (hstale : (hget t k).map hash ≠ e) (hne : cname k (hash c) ≠ k) :
+    (hstale : (hget t k).map hash ≠ e) (hne : cname t k (hash c) ≠ k) :
     hget (casPut hash cname t k e c).1 k = hget t k ∧ (casPut hash cname t k e c).2 = false := by
   unfold casPut
   rw [if_neg hstale]
   simp [hget_hins, Ne.symm hne]
 
 /-- C13: a Put only ever touches the path it names or that path's conflict-copy name. -/
-theorem put_touches_only_its_paths (hash : Bytes → H) (cname : List (List Char) → H → List (List Char))
+theorem put_touches_only_its_paths (hash : Bytes → H) (cname : HTree → List (List Char) → H → List (List Char))
     (t : HTree) (k q : List (List Char)) (e : Option H) (c : Bytes)
-    (h1 : q ≠ k) (h2 : q ≠ cname k (hash c)) :
+    (h1 : q ≠ k) (h2 : q ≠ cname t k (hash c)) :
     hget (casPut hash cname t k e c).1 q = hget t q := by
   unfold casPut
   split <;> simp [hget_hins, h1, h2]
 
 /-- one loop iteration without interference keeps: (i) already-handled files in place, (ii) untouched paths -/
-theorem syncFile_fresh (hash : Bytes → H) (cname : List (List Char) → H → List (List Char))
+theorem syncFile_fresh (hash : Bytes → H) (cname : HTree → List (List Char) → H → List (List Char))
     (t0 : HTree) (st : HTree × Counters) (f : List (List Char) × Bytes)
     (hsame : hget st.1 f.1 = hget t0 f.1) :
     let r := syncFile hash cname (fun k => (hget t0 k).map hash) st f
@@ -60,7 +60,7 @@ theorem syncFile_fresh (hash : Bytes → H) (cname : List (List Char) → H → 
 
 
 /-- loop invariant of an uninterfered run -/
-theorem hubSync_inv (hash : Bytes → H) (cname : List (List Char) → H → List (List Char)) (t : HTree) :
+theorem hubSync_inv (hash : Bytes → H) (cname : HTree → List (List Char) → H → List (List Char)) (t : HTree) :
     ∀ (todo done : List (List (List Char) × Bytes)) (st : HTree × Counters),
       ((done ++ todo).map (·.1)).Nodup →
       (∀ f ∈ done, (hget st.1 f.1).map hash = some (hash f.2)) →
@@ -131,7 +131,7 @@ theorem hubSync_inv (hash : Bytes → H) (cname : List (List Char) → H → Lis
 
 /-- C13 (exit 0 postcondition, no interference): every local file is on the hub at its path, hub
 files at other paths are untouched, no conflict is reported. -/
-theorem hubSync_post (hash : Bytes → H) (cname : List (List Char) → H → List (List Char)) (t : HTree)
+theorem hubSync_post (hash : Bytes → H) (cname : HTree → List (List Char) → H → List (List Char)) (t : HTree)
     (localFiles : List (List (List Char) × Bytes)) (hnd : (localFiles.map (·.1)).Nodup) :
     (∀ f ∈ localFiles, (hget (hubSync hash cname t localFiles).1 f.1).map hash = some (hash f.2)) ∧
     (∀ q, q ∉ localFiles.map (·.1) → hget (hubSync hash cname t localFiles).1 q = hget t q) ∧
@@ -141,7 +141,7 @@ theorem hubSync_post (hash : Bytes → H) (cname : List (List Char) → H → Li
 
 /-- C13 (second run): when every local file is already on the hub with the same hash, the run sends
 nothing and leaves the hub as it is. -/
-theorem second_run_sends_nothing (hash : Bytes → H) (cname : List (List Char) → H → List (List Char)) (t : HTree)
+theorem second_run_sends_nothing (hash : Bytes → H) (cname : HTree → List (List Char) → H → List (List Char)) (t : HTree)
     (localFiles : List (List (List Char) × Bytes))
     (hall : ∀ f ∈ localFiles, (hget t f.1).map hash = some (hash f.2)) :
     (hubSync hash cname t localFiles).1 = t ∧ (hubSync hash cname t localFiles).2.sent = 0 ∧
